@@ -1,7 +1,8 @@
 """C09 — pattern matching agrees with expression evaluation: step kinds the pattern compiler produces are handled by
 both pattern consumers; one NodeTester implementation decides node tests (DESIGN.md §3)."""
+import re
 from ..build import AnalysisBroken
-from ..mast import walk, calls, callee, strip_casts
+from ..mast import walk, calls, callee, strip_casts, CFG, pp
 from ..facts import short
 from . import common, xpathops
 
@@ -394,3 +395,227 @@ _run_c09_prev2 = run
 def run(res, facts, tier):
     _run_c09_prev2(res, facts, tier)
     r5_backtracking(res, facts)
+
+
+# ----------------------------------------------------------------------------------------------- R6: a number-valued predicate is a position test
+def r6_numeric_predicates(res, facts):
+    """XPath 1.0 2.4: a predicate whose value is a number is true iff the number equals the context position.  The expression side (XPath::predicates) and the
+    pattern side (XPath::doStepPredicate) both evaluate a predicate with XPath::predicate(); each must split on the run-time type of the result before converting
+    it to a boolean - otherwise item[count(x)] selects by position and matches by non-zero-ness."""
+    r = res.rule('C09-R6', 'every function that evaluates a predicate with XPath::predicate() tests the type of the result for number and treats that case as a position test; the '
+                 'conversion boolean() is applied only where the number case was excluded, or in the same condition as the position comparison', floor=2)
+    pk = [k for k, v in facts.F.items() if v['name'] == 'xalanc_1_12::XPath::predicate']
+    if not pk:
+        raise AnalysisBroken('XPath::predicate not found')
+    sites = sorted({c['from'] for c in facts.calls if c['to'] in pk})
+    n = 0
+    for k in sites:
+        a = facts.ast(k)
+        if a is None or a.get('body') is None:
+            continue
+        n += 1
+        site = short(facts.sig(k))
+        cfg = CFG(a)
+        mc = common.must_conds(cfg)
+
+        def is_type_test(e):
+            e = strip_casts(e)
+            if e is None or e.get('k') != 'Bin' or e['op'] not in ('==', '!='):
+                return None
+            t = pp(e)
+            if 'eTypeNumber' in t and 'getType()' in t:
+                return e['op'] == '=='
+            return None
+        type_tests = [x for x in walk(a['body']) if is_type_test(x) is not None]
+        bools = [(nd, c) for nd, c in common.find_call_nodes(cfg, 'boolean') if c.get('k') == 'MCall' and 'XObject' in (c.get('cls') or '')]
+        if not bools:
+            r.violation(site, 'the result of predicate() is never converted with XObject::boolean(): the predicate is not applied as XPath 1.0 2.4 defines', common.file_line(a)); continue
+        if not type_tests:
+            r.violation(site, 'the result of predicate() is converted to a boolean without a test for the type number: a number-valued predicate is applied as "non-zero" '
+                        'instead of "equals the position" (XPath 1.0 2.4)', common.file_line(a, bools[0][1])); continue
+        bad = None
+        for nd, c in bools:
+            excluded = False
+            for atom, br in mc.get(nd.id, []):
+                core, eff = common.norm_atom(atom, br)
+                tt = is_type_test(core)
+                if tt is not None and (tt != eff):
+                    excluded = True       # "type == number" is false here
+            if excluded:
+                continue
+            # same condition as a position comparison of the number
+            holder = None
+            for x in walk(a['body']):
+                if x.get('k') == 'If' and any(y is c for y in walk(x['cond'])):
+                    holder = x['cond']
+            if holder is not None and any(is_type_test(y) for y in walk(holder)) and any((y.get('n') or '') == 'num' for y in calls(holder)):
+                continue
+            bad = c
+            break
+        if bad is not None:
+            r.violation(site, 'boolean() is applied to a predicate result on a path where the type number was not excluded: a number-valued predicate is applied as "non-zero" '
+                        'instead of "equals the position" (XPath 1.0 2.4)', common.file_line(a, bad))
+        else:
+            r.ok(site, 'number -> position test, otherwise boolean()')
+    if n < 2:
+        raise AnalysisBroken('only %d function(s) call XPath::predicate (the expression side and the pattern side expected)' % n)
+    return r
+
+
+_run_c09_prev5 = run
+
+
+def run(res, facts, tier):
+    _run_c09_prev5(res, facts, tier)
+    r6_numeric_predicates(res, facts)
+
+
+# ----------------------------------------------------------------------------------------------- R7: the attribute step
+def r7_attribute_step(res, facts):
+    """NodeTester::initialize picks the attribute name tests only for the step type eFROM_ATTRIBUTES (and the namespace tests only for eFROM_NAMESPACE); with any other
+    step type a name test is an element test.  So every tester built for an attribute step - in findAttributes, for whichever step kinds XPath::step sends there, and
+    in stepPattern's eMATCH_ATTRIBUTE case - must be built with eFROM_ATTRIBUTES, and the pattern side must apply it to attribute nodes only (node() accepts any kind)."""
+    r = res.rule('C09-R7', 'attribute steps: the step types that reach the node tester of findAttributes / findNamespace from XPath::step are exactly the ones for which '
+                 'NodeTester::initialize selects the attribute / namespace tests; stepPattern applies the node test of an eMATCH_ATTRIBUTE step only to attribute nodes and of '
+                 'the child steps only to non-attribute nodes', floor=5)
+    # which step types make initialize() choose which family
+    init = [a for a in facts.asts('XPath::NodeTester::initialize', must=False) + facts.asts('XPath::NodeTester::NodeTester', must=False) if a.get('body') is not None]
+    fam = {}
+    for a in init:
+        for x in walk(a['body']):
+            if x.get('k') == 'If':
+                c = strip_casts(x['cond'])
+                if c.get('k') == 'Bin' and c['op'] == '==' and 'stepType' in pp(c):
+                    en = [y.get('n') for y in walk(c) if y.get('k') == 'Ref' and y.get('d') == 'enum']
+                    tests = {y.get('n') or '' for y in walk(x['then']) if y.get('k') == 'Ref' and (y.get('n') or '').startswith('test')} | \
+                            {m.group(0) for m in re.finditer(r'test(Attribute|Namespace|Element)\w*', pp(x['then']))}
+                    txt = str(x['then'])
+                    if en and 'testAttribute' in txt:
+                        fam['attribute'] = en[0]
+                    elif en and 'testNamespace' in txt:
+                        fam['namespace'] = en[0]
+    if 'attribute' not in fam:
+        raise AnalysisBroken('NodeTester: the branch that selects the attribute tests by step type was not found')
+    steps = [a for a in facts.asts('XPath::step', must=False) if a.get('body') is not None and len(a['params']) >= 4]
+    if not steps:
+        raise AnalysisBroken('XPath::step has no body')
+    from ..mast import switch_cases
+    n_sites = 0
+    for a in steps:
+        for sw in walk(a['body']):
+            if sw.get('k') != 'Switch':
+                continue
+            groups = switch_cases(sw)
+            carry = []
+            for g in groups:
+                labels = carry + [strip_casts(l).get('n') for l in g['labels'] if l is not None]
+                ends = bool(g['stmts']) and g['stmts'][-1].get('k') in ('Break', 'Return')
+                for c in (c for st in g['stmts'] for c in calls(st)):
+                    n = c.get('n') or ''
+                    want = {'findAttributes': 'attribute', 'findNamespace': 'namespace'}.get(n)
+                    if want is None or want not in fam or len(c.get('args', [])) < 4:
+                        continue
+                    n_sites += 1
+                    arg = strip_casts(c['args'][3])
+                    if arg.get('k') == 'Ref' and arg.get('d') == 'enum':
+                        vals = [arg['n']]
+                    else:
+                        vals = labels
+                    site = 'XPath::step -> %s (step kinds %s)' % (n, ', '.join(labels))
+                    bad = [v for v in vals if v != fam[want]]
+                    if bad:
+                        r.violation(site, 'the node tester of %s is built with step type %s; NodeTester::initialize selects the %s name tests only for %s, so a name test there is '
+                                    'an element test and never accepts an %s node (a pattern such as @*[1], which searches from the parent, matches nothing)'
+                                    % (n, ', '.join(bad), want, fam[want], want), common.file_line(a, c))
+                    else:
+                        r.ok(site, 'tester built with ' + fam[want])
+                carry = [] if ends else labels
+    if n_sites < 2:
+        raise AnalysisBroken('XPath::step: %d calls of findAttributes / findNamespace found' % n_sites)
+    # pattern side: kind guards
+    sp = [a for a in facts.asts('XPath::stepPattern', must=False) if a.get('body') is not None]
+    if not sp:
+        raise AnalysisBroken('XPath::stepPattern has no body')
+    for a in sp:
+        cfg = CFG(a)
+        mc = common.must_conds(cfg)
+        seen = set()
+        for n in cfg.nodes:
+            if n.ast is None:
+                continue
+            for c in calls(n.ast):
+                if c.get('k') != 'Ctor' or not (c.get('cls') or '').endswith('NodeTester') or len(c.get('args', [])) < 5:
+                    continue
+                st = strip_casts(c['args'][4])
+                kind = st.get('n') if st.get('k') == 'Ref' and st.get('d') == 'enum' else None
+                conds = []
+                for atom, br in mc.get(n.id, []):
+                    core, eff = common.norm_atom(atom, br)
+                    t = pp(core)
+                    if 'ATTRIBUTE_NODE' in t and core.get('k') == 'Bin' and core['op'] in ('==', '!='):
+                        conds.append((core['op'] == '==') == eff)      # True: "is an attribute" holds
+                if kind == 'eFROM_ATTRIBUTES':
+                    site = 'stepPattern: attribute step'
+                    if site in seen:
+                        continue
+                    seen.add(site)
+                    if True in conds:
+                        r.ok(site, 'node test applied to attribute nodes only')
+                    else:
+                        r.violation(site, 'the node test of an attribute step is applied to a node of any kind: node() accepts elements, text and comments, so match="@node()" '
+                                    'matches them', common.file_line(a, c))
+                elif kind in ('eMATCH_IMMEDIATE_ANCESTOR',) or kind is None and 'stepType' in pp(c['args'][4]):
+                    # child steps: the tester built from the case's own step type
+                    labels_txt = kind or 'the // step kinds'
+                    site = 'stepPattern: child step (%s)' % labels_txt
+                    if site in seen:
+                        continue
+                    # the FROM_ROOT case also builds a tester from stepType: it climbs to the root and needs no kind guard
+                    if kind is None and False not in conds:
+                        continue
+                    seen.add(site)
+                    if False in conds:
+                        r.ok(site, 'node test applied to non-attribute nodes only')
+                    else:
+                        r.violation(site, 'the node test of a child step is applied to attribute nodes too', common.file_line(a, c))
+    # namespace declarations are not attributes: excluded on the expression side (findAttributes) and on the pattern side alike
+    def ns_excluded(a, cfg, mc, node):
+        for atom, br in mc.get(node.id, []):
+            core, eff = common.norm_atom(atom, br)
+            if core is not None and core.get('k') in ('Call', 'MCall') and (core.get('n') or '') == 'isNamespaceDeclaration' and eff is False:
+                return True
+        return False
+    for fa in [x for x in facts.asts('XPath::findAttributes', must=False) if x.get('body') is not None]:
+        cfg = CFG(fa)
+        mc = common.must_conds(cfg)
+        adds = common.find_call_nodes(cfg, 'addNode')
+        if not adds:
+            raise AnalysisBroken('findAttributes adds no node')
+        bad = [c for n, c in adds if not ns_excluded(fa, cfg, mc, n)]
+        if bad:
+            r.violation('findAttributes: namespace declarations', 'an attribute is delivered on the attribute axis without isNamespaceDeclaration() == false having been established: '
+                        '@node() delivers xmlns declarations (the name tests reject them, node() does not)', common.file_line(fa, bad[0]))
+        else:
+            r.ok('findAttributes: namespace declarations', 'excluded before the node test')
+    for a in sp:
+        cfg = CFG(a)
+        mc = common.must_conds(cfg)
+        for n in cfg.nodes:
+            if n.ast is None:
+                continue
+            for c in calls(n.ast):
+                if c.get('k') == 'Ctor' and (c.get('cls') or '').endswith('NodeTester') and len(c.get('args', [])) >= 5 and strip_casts(c['args'][4]).get('n') == 'eFROM_ATTRIBUTES':
+                    if ns_excluded(a, cfg, mc, n):
+                        r.ok('stepPattern: namespace declarations', 'excluded before the node test')
+                    else:
+                        r.violation('stepPattern: namespace declarations', 'an attribute step of a pattern can match a namespace declaration (node() accepts it); the expression side '
+                                    'excludes them', common.file_line(a, c))
+    return r
+
+
+_run_c09_prev6 = run
+
+
+def run(res, facts, tier):
+    _run_c09_prev6(res, facts, tier)
+    r7_attribute_step(res, facts)
